@@ -276,6 +276,13 @@ func genC13det(g *G) {
 		{"several-unused-params", func(r *RNG, fs []srcFile) ([]srcFile, bool) {
 			return replaceFirstFrom(r, fs, "/**\n", "/**\n * @param? zq1\n * @param? zq2\n * @param? zq3\n * @param? zq4\n * @param? zq5\n")
 		}},
+		// several violations inside ONE map literal: which one is reported must not depend on map iteration order
+		{"undeclared-in-map-literal", func(r *RNG, fs []srcFile) ([]srcFile, bool) {
+			return bodySite(r, fs, "{length(['a': $zq1, 'b': $zq2, 'c': $zq3, 'd': $zq4, 'e': $zq5])}")
+		}},
+		{"unknown-function-in-map-literal", func(r *RNG, fs []srcFile) ([]srcFile, bool) {
+			return bodySite(r, fs, "{length(['a': nosuch1(1), 'b': nosuch2(2), 'c': nosuch3(3), 'd': nosuch4(4)])}")
+		}},
 		{"duplicate-template", func(r *RNG, fs []srcFile) ([]srcFile, bool) {
 			out := append([]srcFile(nil), fs...)
 			out[0].content += "\n{template .t0}dup{/template}\n"
